@@ -593,11 +593,25 @@ def check_effect(acc, case) -> list[dict]:
     set_gl = {"myst_" + f: v for f, v in glob.items()}
     for d in (set_fm, set_gl):
         d.setdefault("myst_highlight_code_blocks", True)
-    try:
-        d1, w1 = front.docutils_publish(text_fm, settings=set_fm)
-        d2, w2 = front.docutils_publish(text_gl, settings=set_gl)
-    except Exception as exc:  # noqa: BLE001
-        return [mk(f"C13:effect-render-raises:{type(exc).__name__}", case, "two documents", f"{type(exc).__name__}: {exc}")]
+    errs = []
+    d1 = d2 = None
+    for which, text, st_ in (("front-matter", text_fm, set_fm), ("global", text_gl, set_gl)):
+        try:
+            d, w = front.docutils_publish(text, settings=st_)
+        except Exception as exc:  # noqa: BLE001
+            errs.append((which, f"{type(exc).__name__}: {exc}"))
+            continue
+        if which == "front-matter":
+            d1, w1 = d, w
+        else:
+            d2, w2 = d, w
+    if len(errs) == 2:
+        # the document cannot be rendered at all: that is the totality property's business (C01), not a difference
+        if acc is not None:
+            acc.excluded["render-raises-in-both-spellings (C01)"] += 1
+        return []
+    if errs:
+        return [mk(f"C13:only-one-spelling-renders:{field}", case, "both spellings render", errs)]
     vs = []
     a = shift_lines(d1.pformat(), k)
     b = shift_lines(d2.pformat(), k_gl)
